@@ -54,9 +54,16 @@ def raw_values(rng, program, tmp):
         vals.append([rng.choice(scal) for _ in range(k)])
     for _ in range(25):
         vals.append([[rng.choice(scal) for _ in range(rng.randrange(0, 3))] for _ in range(rng.randrange(0, 3))])
-    vals += [[], [[]], [[1, 2], 3], [names[0], cmds[1]], [1, "2", 3.5], ["1", "x"], (1, 2)]
-    vals += [{}, {"a": "b"}, {"k": 1, "j": "v"}, {"1": "x", "3": "y"}, {"a": 1.5}, {"a": [1]}]
+    vals += fixed_values(names, cmds)
     return vals
+
+
+def fixed_values(names, cmds):
+    """values that are always tried with every parameter: lists whose cleaned form compares equal to the raw form although the types differ
+    (1 == True, 1.0 == 1), relative paths, empty and nested lists, tuples, dicts"""
+    return [[], [[]], [[1, 2], 3], [names[0], cmds[1]], [1, "2", 3.5], ["1", "x"], (1, 2), [1, 0, 1], [0], [True, 1], [1.0, 2], [[1, 0], [0]], ["a.csv"], ["a.csv", "sub/b.nc"],
+            [True, False], ["true", 0], "a.csv", "sub/b.nc", "missing.csv",
+            {}, {"a": "b"}, {"k": 1, "j": "v"}, {"1": "x", "3": "y"}, {"a": 1.5}, {"a": [1]}]
 
 
 def make_program(wd):
@@ -185,13 +192,19 @@ def run(ctx):
         open(os.path.join(tmp, f), "w").write("x\n1\n")
     lines, metas = [], []
     rng = ctx.rng
-    for wd in (None, tmp, "rel", ""):
+    # the parameter objects are created once and used for every program / working directory, as the library's own parameter objects are:
+    # what an earlier cleaning did (under another working directory, for another program) must not influence a later one
+    cfgs = configs()
+    tmp2 = common.tmpdir("mpv_c20b_")
+    open(os.path.join(tmp2, "a.csv"), "w").write("x\n2\n")
+    wds = [None, tmp, "rel", "", tmp2]
+    rng.shuffle(wds)
+    for wd in wds + [wds[0]]:
         program = make_program(wd)
         raws = raw_values(rng, program, tmp)
-        cfgs = configs()
-        budget = ctx.budget(10 ** 9, 10 ** 9)
+        nfixed = len(fixed_values(list(program.commands), list(program.commands.values())))
         for cname, param in cfgs:
-            pool = raws if ctx.thorough else rng.sample(raws, min(len(raws), 70))
+            pool = raws if ctx.thorough else rng.sample(raws[:-nfixed], min(len(raws) - nfixed, 55)) + raws[-nfixed:]
             for v in pool:
                 before_raw = snap(v)
                 before_state = program_state(program)
@@ -210,6 +223,11 @@ def run(ctx):
                     ctx.fail("%s.clean(%r): error carries line %r, not the argument's line" % (cname, v, r1[2]), desc)
                 elif r1[0] == "ok" and not typed_ok(cname, param, r1[1]):
                     ctx.fail("%s.clean(%r) returned %r: not the documented type" % (cname, v, r1[1]), desc)
+                elif r1[0] == "ok" and cname.startswith("Path") and isinstance(v, str) and not os.path.isabs(v) and wd is not None \
+                        and r1[1] != os.path.join(wd, v):
+                    ctx.fail("%s.clean(%r) under working directory %r returned %r, not the path joined to the working directory" % (cname, v, wd, r1[1]), desc)
+                elif r1[0] == "ok" and cname.startswith("Path") and isinstance(v, str) and not os.path.isabs(v) and wd is None:
+                    ctx.fail("%s.clean(%r) without a working directory returned %r instead of raising InvalidRelativePath" % (cname, v, r1[1]), desc)
                 if not same_clean(r1, r2):
                     ctx.fail("%s.clean(%r) gives different answers on repetition: %r then %r" % (cname, v, r1[:2], r2[:2]), desc)
                 if before_raw != snap(v):
